@@ -702,3 +702,113 @@ func VH_TableIsolation() {
 		vAssert(vEventDigest(e3) == d1, "C15/outcome-for-the-same-messages-changed-by-other-events")
 	}
 }
+
+// ---- C20: which normalisation an event gets depends on the event only ---------------------------
+
+func init() { vEntries["VH_NormSelection"] = VH_NormSelection }
+
+func vActionOf(typ auparse.AuditMessageType, seq uint32, data map[string]string) (string, int) {
+	cp := map[string]string{}
+	for k, v := range data {
+		cp[k] = v
+	}
+	ev, err := CoalesceMessages([]*auparse.AuditMessage{auparse.VNewMessage(typ, seq, 200, cp, nil, nil)})
+	if err != nil || ev == nil {
+		return "<error>", 0
+	}
+	return ev.Summary.Action, len(ev.Warnings)
+}
+
+// VH_NormSelection: two events of one record type (or two SYSCALL events) with independently
+// chosen qualifying fields, then the first one's content again. Each gets an action of a
+// normalisation the table lists for it and whose has_fields it carries (the only one, if only one
+// qualifies), and the same content gets the same action whatever was processed in between.
+func VH_NormSelection() {
+	vInstallTableImage()
+	if vParam("syscalls", 0) != 0 {
+		scs := make([]string, 0, len(syscallNorms))
+		for k := range syscallNorms {
+			scs = append(scs, k)
+		}
+		sort.Strings(scs)
+		scs = append(scs, "zz_unlisted")
+		a := scs[vChoose("sc1", len(scs))]
+		b := []string{"open", "connect", "zz_unlisted", "setuid"}[vChoose("sc2", 4)]
+		want := func(name string) string {
+			if name == "*" || syscallNorms[name] == nil {
+				return syscallNorms["*"].Action
+			}
+			return syscallNorms[name].Action
+		}
+		base := func(name string) map[string]string {
+			return map[string]string{"syscall": name, "result": "success", "auid": "1000", "uid": "0", "ses": "3", "pid": "5", "exe": "/bin/x"}
+		}
+		a1, _ := vActionOf(auparse.AUDIT_SYSCALL, 9, base(a))
+		b1, _ := vActionOf(auparse.AUDIT_SYSCALL, 10, base(b))
+		a2, _ := vActionOf(auparse.AUDIT_SYSCALL, 11, base(a))
+		if a != "*" {
+			vAssert(a1 == want(a), "C20/syscall-gets-another-syscalls-normalisation")
+		}
+		vAssert(b1 == want(b), "C20/syscall-gets-another-syscalls-normalisation")
+		vAssert(a2 == a1, "C20/normalisation-selection-depends-on-history")
+		return
+	}
+	rts := make([]string, 0, len(recordTypeNorms))
+	for k := range recordTypeNorms {
+		rts = append(rts, k)
+	}
+	sort.Strings(rts)
+	name := rts[vChoose("rt", len(rts))]
+	t, err := auparse.GetAuditMessageType(name)
+	if err != nil {
+		vStop()
+		return
+	}
+	norms := recordTypeNorms[name]
+	variants := [][]string{nil}
+	for _, n := range norms {
+		if len(n.HasFields.Values) > 0 {
+			variants = append(variants, n.HasFields.Values)
+		}
+	}
+	mk := func(fs []string) map[string]string {
+		d := map[string]string{"pid": "1", "uid": "0", "auid": "1000", "ses": "5", "result": "success", "acct": "bob"}
+		for _, f := range fs {
+			d[f] = "v"
+		}
+		return d
+	}
+	check := func(d map[string]string, action string, nwarn int) {
+		var q []*Normalization
+		for _, n := range norms {
+			all := true
+			for _, f := range n.HasFields.Values {
+				if _, ok := d[f]; !ok {
+					all = false
+				}
+			}
+			if all {
+				q = append(q, n)
+			}
+		}
+		if len(q) == 0 {
+			vAssert(nwarn > 0, "C20/no-normalisation-and-no-warning")
+			return
+		}
+		in := false
+		for _, n := range q {
+			if n.Action == action {
+				in = true
+			}
+		}
+		vAssert(in, "C20/event-gets-a-normalisation-whose-has_fields-it-lacks")
+	}
+	d1 := mk(variants[vChoose("v1", len(variants))])
+	d2 := mk(variants[vChoose("v2", len(variants))])
+	a1, w1 := vActionOf(t, 9, d1)
+	a2, w2 := vActionOf(t, 10, d2)
+	a3, _ := vActionOf(t, 11, d1)
+	check(d1, a1, w1)
+	check(d2, a2, w2)
+	vAssert(a3 == a1, "C20/normalisation-selection-depends-on-history")
+}
